@@ -1034,6 +1034,12 @@ class Interp:
             r = self.bv_binop(op, a, b)
             if r is not None:
                 return r
+        if op in ("eq", "ne"):
+            # a number never equals a tuple, a string or None (both __eq__ return NotImplemented, identity decides)
+            for u, v in ((a, b), (b, a)):
+                if isinstance(u, (SymInt, SymReal, SymBool)) and ((isinstance(v, Conc) and isinstance(v.obj, (tuple, str, type(None), list)))
+                                                                  or isinstance(v, (PyTuple, PyList, SymSeq, SymStr))):
+                    return Conc(op == "ne")
         ia, ib = self.as_int(a), self.as_int(b)
         if ia is not None and ib is not None:
             return self.int_binop(op, ia, ib)
